@@ -11,7 +11,7 @@ checks = {
          "every ordered pair of a boundary grid over int64/uint64/char/float64 (quick 444 values, thorough 1030: +-2^k, 2^k+-1, float neighbours, NaN, Inf, +-0, subnormals) under all 6 comparison operators, hash lookup and + - * / mod is evaluated on the real interpreter and compared with an exact oracle",
          "trusts the math/big / Go fixed-width oracle; values outside the structured grid are not explored; pairs the property leaves unspecified are only checked for no-panic", "§3 C07"),
  "C01": ("exploration", "small-scope exhaustive enumeration of source texts (token strings, ill-typed calls, single-token mutations of every corpus form, nesting families, declarations followed by a new interpreter) through every script-facing entry point of the real library and the command-line tool; oracle = returns a value or an error",
-         "every string of <=3 (thorough 4) tokens over a 60-token alphabet x 10 wrappers through EvalString, LoadString+Run, the REPL line path and the parser; every bound name, macro and special form x all argument vectors of length 0..2 (thorough 3) over 24 value/form kinds; every top-level form of the 111 corpus scripts under every prefix, single-token deletion, duplication, neighbour swap and replacement by 8 (thorough 18) tokens, evaluated after the forms before it; 31 nesting families to depth 1000 (thorough 20000); 9 declaration routes x every bound/reserved name followed by construction of the next interpreter; hand list + alphabet through zygo -c / stdin / script file. No Go panic may escape, no process may die, no call may return (nil, nil), and every call returns within 60 s unless the 100000-step VM budget ran out",
+         "every string of <=3 (thorough 4) tokens over a 60-token alphabet x 10 wrappers through EvalString, LoadString+Run, the REPL line path and the parser; every bound name, macro and special form x all argument vectors of length 0..2 (thorough 3) over 24 value/form kinds; every top-level form of the 111 corpus scripts under every prefix, single-token deletion, duplication, neighbour swap and replacement by 8 (thorough 18) tokens, evaluated after the forms before it; 31 nesting families to depth 600 (thorough 1500); 9 declaration routes x every bound/reserved name followed by construction of the next interpreter; hand list + alphabet through zygo -c / stdin / script file. No Go panic may escape, no process may die, no call may return (nil, nil), and every call returns: one still running after 90 s with the 100000-step VM budget not used up ends the worker and is confirmed by three solitary replays",
          "mutation of the corpus is bounded to one token edit per form (the property's 'unbounded mutation' is not reachable by enumeration); outside-world functions and the minutes-long debug dump are stubbed; out-of-memory is not explored; calls that wait on channels are counted, not judged", "§3 C01"),
  "C08": ("exploration", "small-scope exhaustive enumeration of every bound name and special form x canary argument vectors x call routes on real sandboxed interpreters and on cmd/zygo -sandbox; oracle = canary files, canary environment variable and secrets unchanged/unseen",
          "configurations {NewZlispSandbox(), sandbox + StandardSetup(), zygo -sandbox -c} x every name the interpreter itself reports as bound (so an added primitive is seen) + the compiler's special forms + setup macros x all argument vectors of length 0..2 (thorough 3) over a 9-item canary menu x 5 (bare) / 9 (standard) call routes incl. alias, apply, eval, macros, eval at expansion time in a duplicated interpreter; every outside-world primitive of the full interpreter is also reached for through names computed at run time, and again after the script itself has bound that name (as value, function or macro); after every call the canary directory must be byte-identical, the canary variable unchanged, no secret in value or stdout",
@@ -62,7 +62,7 @@ checks = {
          "Go value fixed first, record text derived from it: 48 single-field cases over 22 field kinds (incl. slices of struct values and pointers, map of interfaces, three levels of embedding), every subset of the embedded fields, 5 change-then-convert-again sequences, all (quick: a third of the) ordered pairs of fields, all triples of fields (thorough), 6 sharing patterns; SexpToGoStructs and (togo r) give DeepEqual values with one object per shared record; (_method a EchoSelf:) returns an equivalent record; 11 records with undeclared fields or wrong-kind values are reported as errors",
          "types registered by the harness through the public registry; unset fields may come back as zero values; the time.Time loss on the way back is a recorded finding pinned by the repository's own tests", "§3 C10"),
  "C20": ("model_checking", "deviation-bounded exploration of map-iteration choice points on a rebuilt package (AST rewrite through go build -overlay routes every range over a map through a chooser), plus re-runs in the same and in a fresh process",
-         "for each of 98 corpus programs the default run (all maps iterated in sorted order, interpreter construction included) records the choice points (30 rewritten range sites); every single deviation (reverse, rotate, swap; all permutations for <=3 keys; thorough: + pairs of reversals) is executed and value, captured stdout and error text must equal the default run's; each program is re-run in the same process and in a fresh process",
+         "for each of 100 corpus programs the default run (all maps iterated in sorted order, interpreter construction included) records the choice points (30 rewritten range sites); every single deviation (reverse, rotate, swap; all permutations for <=3 keys; thorough: + pairs of reversals) is executed and value, captured stdout and error text must equal the default run's; each program is re-run in the same process and in a fresh process",
          "1 range site keyed by interface{} (a debug dump) and maps inside third-party modules are not controlled; pointer values and clock readings are scrubbed; single (thorough: double) deviations", "§3 C20"),
 }
 all_ids = ["C%02d" % i for i in range(1, 21)]
